@@ -218,9 +218,40 @@ def _nfa_full(nfa: rx.NFA, text: str) -> bool:
 
 
 def _flatten_add(e: ast.AST) -> T.List[ast.AST]:
-    if isinstance(e, ast.BinOp) and isinstance(e.op, ast.Add):
-        return _flatten_add(e.left) + _flatten_add(e.right)
-    return [e]
+    return SP.template_parts(e)      # `+` chains, f-strings, % and .format templates alike
+
+
+def _fold_trans_table(ctx: RuleCtx, pmod: Module, name: str, cls: str) -> T.Dict[int, T.Any]:
+    """A str.translate table however it is spelled: str.maketrans({...}) / maketrans(a, b), or a dict display keyed by
+    code points, ord('<c>') or one-character strings."""
+    e = pmod.assign_value(name, pmod.cls(cls))
+    if isinstance(e, ast.Dict):
+        out: T.Dict[int, T.Any] = {}
+        for k, v in zip(e.keys, e.values):
+            if isinstance(k, ast.Call) and norm(k.func) == 'ord' and len(k.args) == 1:
+                kk = fold_expr(ctx.repo, pmod, k.args[0], cls=cls)
+                if not (isinstance(kk, str) and len(kk) == 1):
+                    raise Undecided(f'translate table key {short(k)}')
+                key = ord(kk)
+            elif k is not None:
+                kv = fold_expr(ctx.repo, pmod, k, cls=cls)
+                if isinstance(kv, int) and not isinstance(kv, bool):
+                    key = kv
+                else:
+                    raise Undecided(f'translate table key {short(k)} is not a code point')
+            else:
+                raise Undecided('translate table with ** expansion')
+            out[key] = fold_expr(ctx.repo, pmod, v, cls=cls)
+        return out
+    if isinstance(e, ast.Call) and norm(e.func) == 'str.maketrans' and len(e.args) == 2:
+        a, b = fold_expr(ctx.repo, pmod, e.args[0], cls=cls), fold_expr(ctx.repo, pmod, e.args[1], cls=cls)
+        if isinstance(a, str) and isinstance(b, str) and len(a) == len(b):
+            return {ord(x): y for x, y in zip(a, b)}
+        raise Undecided('str.maketrans(a, b) with unequal lengths')
+    tab = fold_expr(ctx.repo, pmod, e, cls=cls)
+    if not isinstance(tab, dict):
+        raise Undecided(f'translate table {name} does not fold to a dict')
+    return tab
 
 
 Piece = T.Union[str, ast.AST]      # constant text, or the expression that carries node.value
@@ -305,9 +336,7 @@ def _translate_table(ctx: RuleCtx, pmod: Module, e: ast.AST, arg: str, depth: in
     if isinstance(e.func, ast.Attribute) and e.func.attr == 'translate' and norm(e.func.value) == arg and len(e.args) == 1:
         t = attr_chain(e.args[0]) or ''
         if t.startswith('self.') and t.count('.') == 1:
-            tab = fold_const(ctx.repo, pmod, t.split('.')[1], cls='AstPrinter')
-            if isinstance(tab, dict):
-                return tab
+            return _fold_trans_table(ctx, pmod, t.split('.')[1], 'AstPrinter')
         raise Undecided(f'translate table {short(e.args[0])} cannot be folded')
     if isinstance(e.func, ast.Attribute) and isinstance(e.func.value, ast.Name) and e.func.value.id == 'self' and len(e.args) == 1 and norm(e.args[0]) == arg:
         r = ctx.repo.find_method(pmod, pmod.cls('AstPrinter'), e.func.attr)
